@@ -42,7 +42,7 @@ def main():
     ids = ids or sorted(d for d in os.listdir(SEEDED) if os.path.isdir(os.path.join(SEEDED, d)))
     import shutil
     gen = os.path.join(VERIF, 'lean', 'Lcapy', 'Generated')
-    bak = '/tmp/seedrun_generated_backup'
+    bak = '/tmp/seedrun_generated_backup_%d' % os.getpid()
     shutil.rmtree(bak, ignore_errors=True)
     shutil.copytree(gen, bak)
     rows = []
